@@ -1,8 +1,8 @@
 (* C24 — the zone-file parser is total and only yields valid records.
    Statements only; every proof is [exact <lemma from Proofs/ZfRecordP.v>].
    [parse_all] drives the model of <zone_file::Parser as Iterator>::next until it returns None. *)
-From QV Require Import Base.ListX Model.NameWire Model.ZfReader Model.ZfParser Spec.ZfValidS
-  Proofs.ZfReaderP Proofs.ZfNameP Proofs.ZfParserP Proofs.ZfRecordP.
+From QV Require Import Base.ListX Model.NameWire Model.ZfReader Model.ZfParser Model.ZfRecOnly Spec.ZfValidS
+  Proofs.ZfReaderP Proofs.ZfNameP Proofs.ZfParserP Proofs.ZfRecordP Proofs.ZfRecOnlyP.
 
 (* For ANY input octets the iteration ends with a list of items: it never panics (no indexing,
    unwrap, ArrayVec::push or overflow check of the modelled code can fire) and the model's fuel
@@ -42,6 +42,39 @@ Theorem c24_include_origin : forall input items p n path o, parse_all input = Ok
   In (inl (mkLine n (CInclude path (Some o)))) items -> good_name o.
 Proof. exact includes_valid. Qed.
 
+(* The records-only iterator (Parser::records_only(), what the zone loader uses): it is total as well, an
+   $INCLUDE line becomes an "include not supported" error, and after ANY error item -- the parser's own or
+   that one -- every further call yields None and leaves the state unchanged; in a complete run an error is
+   the last item and the exhausted iterator stays exhausted. *)
+Theorem c24_records_only_total : forall input, exists items p, ro_all input = Ok (items, p).
+Proof. exact ro_all_total. Qed.
+
+Theorem c24_records_only_stops : forall p e p', ro_next p = Ok (Some (inr e), p') ->
+  forall n, Forall (fun x => x = Ok (None, p')) (ro_next_n n p').
+Proof. exact ro_stops_after_error. Qed.
+
+Theorem c24_records_only_stops_run : forall input items p, ro_all input = Ok (items, p) ->
+  ro_next p = Ok (None, p) /\
+  forall i e, nth_error items i = Some (inr e) -> S i = length items.
+Proof. exact ro_errors_only_last. Qed.
+
+Theorem c24_records_only_include : forall p n path o p',
+  parser_next p = Ok (Some (inl (mkLine n (CInclude path o))), p') ->
+  exists p'', ro_next p = Ok (Some (inr (mkPos n 1, IncludeNotSupported)), p'') /\ ps_error p'' = true.
+Proof. exact ro_include_is_error. Qed.
+
+(* Non-vacuity: a record, an $INCLUDE line and another record: the iterator yields the record, the error
+   at line 2 column 1, and then nothing (c24_records_only_stops_run). *)
+Definition ex_ro_file : bytes :=
+  (* "a. 1 IN A 1.2.3.4\n$INCLUDE f\nb. 1 IN A 1.2.3.5\n" *)
+  [97;46;32;49;32;73;78;32;65;32;49;46;50;46;51;46;52;10; 36;73;78;67;76;85;68;69;32;102;10;
+   98;46;32;49;32;73;78;32;65;32;49;46;50;46;51;46;53;10]%N.
+
+Example c24_records_only_example :
+  exists r1 p, ro_all ex_ro_file = Ok ([inl (mkRoLine 1 r1); inr (mkPos 2 1, IncludeNotSupported)], p) /\
+    rr_rdata r1 = [1; 2; 3; 4]%N.
+Proof. vm_compute. do 2 eexists. split; reflexivity. Qed.
+
 (* Non-vacuity: a file with a directive, a relative owner, an omitted owner, parentheses, a \# record
    and a final syntax error is parsed to three valid records followed by the error. *)
 Definition ex_file : bytes :=
@@ -64,3 +97,7 @@ Print Assumptions c24_stops_run.
 Print Assumptions c24_valid.
 Print Assumptions c24_owner_absolute.
 Print Assumptions c24_include_origin.
+Print Assumptions c24_records_only_total.
+Print Assumptions c24_records_only_stops.
+Print Assumptions c24_records_only_stops_run.
+Print Assumptions c24_records_only_include.
